@@ -268,3 +268,112 @@ Print Assumptions C02_columns.
 Print Assumptions C02_ids_orientation.
 Print Assumptions C02_record_text.
 Print Assumptions C02_checkers.
+
+(* ================================================================== the records of a WHOLE RUN (model/Coordinator.v) ============== *)
+(* The record theorems above are about ONE row built from given segments, under the hypotheses pairs_from / valid / non-empty.  This section
+   discharges these hypotheses for every NON-JOINED row of every output file of every mode of Coordinator.program_run, for every seeding
+   function with seeds_ok, so that the statements about what is WRITTEN hold for the files of a run.
+   Hypotheses: SU <= 0 < MS; seeds_ok refs seeds; every reference has shift 0 and strictly ascending positions; every query AS READ (q0s) has
+   shift 0, strictly ascending positions and at least one label; query ids distinct; the run is on the trimmed queries (Program.__readMaps:
+   program_run ... refs (map trim q0s)).
+   run_record refs q0s w  (proofs/RunRecordProofs1.v)  :=  exists reference q0 sh n, In reference refs /\ In q0 q0s /\
+       w = set_aligned_rest (align_row (rsegs w) reference (fragment_at (trim q0) sh n) (rrev w)) (rest w) /\
+       pairs_from (positions_with_ids reference false) (positions_with_ids (fragment_at (trim q0) sh n) (rrev w)) (rsegs w) /\
+       valid_row (nlabels reference) 1 (nlabels q0) (rrev w) (site_pairs (rsegs w)) /\
+       valid (dir_of (rrev w)) (site_pairs (rsegs w)) /\ site_pairs (rsegs w) <> []
+     i.e. w IS a row of the shape C02_ref_span / C02_qry_span / C02_lengths / C02_ids / C02_record_text speak about (segs := rsegs w,
+     reverse := rrev w, rest_ := rest w) and ALL their hypotheses hold (pairs_from comes from RunProofs1.aligner_pair_labels: the labels of
+     every pair are labels getPositionsWithSiteIds enumerates on the reference and on the map — query or fragment — the candidate was aligned
+     on; validity from C01 through the run).  No hypothesis of the record theorems is left open for such rows.
+   record_written refs q0s w  :=  the CONCLUSIONS, about w itself: for some reference of the reference file, query q0 of the query file as read
+     and run list `runs`:  the listed pairs Pl = site_pairs (rsegs w) are a non-empty valid matching of labels 1..n of both maps;
+     qid/rid are the ids of q0/reference; QryLen = last - first + 1 bp of q0; RefLen = mlen reference; RefStartPos/RefEndPos = label_at reference
+     of the first/last listed reference label (start <= end); QryStartPos/QryEndPos = offsets of the first/last listed query label of q0 from
+     its first label ('+', start <= end) resp. from its last label, swapped ('-', start >= end);
+     cigar_runs Pl = Ok runs, runs <> [], xrow_of w = Ok (xrow_of_row w runs), and for every entry number i
+        split_on TAB (write_row i (xrow_of_row w runs)) = spec_fields i reference q0 (rrev w) Pl (conf w) runs (rest w).
+   The rows covered: all rows of the additional files (all: _1 and _2, joined: _1, separate: _1), every row of the main file that is not a
+   joined row (separate: all of them), and the two parts a, b of every joined row (for the joined row itself: C02_joined, C02_joined_labels
+   give create-of-the-same-labels; that it is a valid matching is open finding F10). *)
+Require Import Coordinator RunProofs2 RunProofs3 RunRecordProofs1 RunRecordProofs3.
+
+Theorem C02_run_records P (seeds : seeding) (refs q0s : list Pairing.omap) m maxdiff o :
+  SU P <= 0 -> 0 < MS P -> seeds_ok refs seeds ->
+  (forall r, In r refs -> mshift r = 0 /\ ascending r) ->
+  (forall q0, In q0 q0s -> mshift q0 = 0 /\ ascending q0 /\ mpositions q0 <> []) -> NoDup (map mid q0s) ->
+  program_run P seeds m maxdiff refs (map trim q0s) = Ok o ->
+  (forall w, In w (opt_rows (o_1 o) ++ opt_rows (o_2 o)) -> run_record refs q0s w /\ record_written refs q0s w) /\
+  (forall w, In w (o_main o) -> (run_record refs q0s w /\ record_written refs q0s w) \/
+     (m <> Separate /\ exists a b, (run_record refs q0s a /\ record_written refs q0s a) /\
+                                   (run_record refs q0s b /\ record_written refs q0s b) /\ join_rows a b = Ok w)) /\
+  (m = Separate -> forall w, In w (out_rows o) -> run_record refs q0s w /\ record_written refs q0s w).
+Proof. exact (fun Hsu Hms Hs Hr => run_rows_written P seeds refs Hsu Hms Hs Hr q0s m maxdiff o). Qed.
+
+(* the same when the run is handed trimmed queries (they are then their own "as read" maps: trim leaves them unchanged) *)
+Theorem C02_run_records_trimmed P (seeds : seeding) (refs qq : list Pairing.omap) m maxdiff o :
+  SU P <= 0 -> 0 < MS P -> seeds_ok refs seeds ->
+  (forall r, In r refs -> mshift r = 0 /\ ascending r) -> (forall q, In q qq -> trimmed q) -> NoDup (map mid qq) ->
+  program_run P seeds m maxdiff refs qq = Ok o ->
+  (forall w, In w (opt_rows (o_1 o) ++ opt_rows (o_2 o)) -> run_record refs qq w /\ record_written refs qq w) /\
+  (forall w, In w (o_main o) -> (run_record refs qq w /\ record_written refs qq w) \/
+     (m <> Separate /\ exists a b, (run_record refs qq a /\ record_written refs qq a) /\
+                                   (run_record refs qq b /\ record_written refs qq b) /\ join_rows a b = Ok w)) /\
+  (m = Separate -> forall w, In w (out_rows o) -> run_record refs qq w /\ record_written refs qq w).
+Proof. exact (fun Hsu Hms Hs Hr => run_rows_written_trimmed P seeds refs Hsu Hms Hs Hr qq m maxdiff o). Qed.
+
+(* record_written spelled out for one row: what run_record gives *)
+Theorem C02_run_record_text (refs q0s : list Pairing.omap) (w : Multi.row) :
+  (forall r, In r refs -> mshift r = 0 /\ ascending r) ->
+  (forall q0, In q0 q0s -> mshift q0 = 0 /\ ascending q0 /\ mpositions q0 <> []) ->
+  run_record refs q0s w ->
+  exists reference q0 runs, In reference refs /\ In q0 q0s /\
+    let Pl := site_pairs (rsegs w) in
+    let a := hd (0, 0) Pl in let b := last Pl (0, 0) in
+    let first0 := hd 0 (mpositions q0) in let last0 := last (mpositions q0) 0 in
+    Pl <> [] /\ valid_row (nlabels reference) 1 (nlabels q0) (rrev w) Pl /\
+    qid w = mid q0 /\ Multi.rid w = mid reference /\ qlen w = last0 - first0 + K /\ rlen w = mlen reference /\
+    rs w = label_at reference (fst a) /\ re w = label_at reference (fst b) /\ rs w <= re w /\
+    (rrev w = false -> qs w = label_at q0 (snd a) - first0 /\ qe w = label_at q0 (snd b) - first0 /\ qs w <= qe w) /\
+    (rrev w = true -> qs w = last0 - label_at q0 (snd b) /\ qe w = last0 - label_at q0 (snd a) /\ qs w >= qe w) /\
+    cigar_runs Pl = Ok runs /\ runs <> [] /\ xrow_of w = Ok (xrow_of_row w runs) /\
+    forall i, split_on TAB (write_row i (xrow_of_row w runs)) = spec_fields i reference q0 (rrev w) Pl (conf w) runs (rest w).
+Proof. exact (run_record_written refs q0s w). Qed.
+
+(* non-vacuity: the run of proofs/ModesExamples.v (one reference of 16 labels; one query = reference labels 1-6, a 30 kb insertion, labels
+   7-12), its query read from a CMAP whose first label sits at 1234.5 bp (rr_q0; trimming gives ModesExamples.ex_query).  The hypotheses
+   hold; mode `separate` writes the first-pass record to the main file and the second-pass record (labels 7..12 of the WHOLE query, offsets
+   9200.0 .. 14200.0 from its first label, AlignedRest True) to _1; each written text is what spec_fields computes from the INPUT maps *)
+Example C02_run_records_nonvacuous :
+  SU ModesExamples.ex_P <= 0 /\ 0 < MS ModesExamples.ex_P /\ seeds_ok rr_refs ModesExamples.ex_seeds /\
+  (forall r, In r rr_refs -> mshift r = 0 /\ ascending r) /\
+  (forall q0, In q0 rr_q0s -> mshift q0 = 0 /\ ascending q0 /\ mpositions q0 <> []) /\ NoDup (map mid rr_q0s) /\
+  hd 0 (mpositions rr_q0) = 12345 /\ map trim rr_q0s = [ModesExamples.ex_query] /\
+  map (fun w => (rr_text 1 w, rr_spec 1 w)) (rr_rows Separate 110000) =
+    [ (Some ["1"; "7"; "1"; "0.0"; "51000.0"; "10000.0"; "61000.0"; "+"; "6000.00"; "6M"; "142001.0"; "2000000.0"; "False"; "1";
+             "(1,1)(2,2)(3,3)(4,4)(5,5)(6,6)"]%string,
+       Some ["1"; "7"; "1"; "0.0"; "51000.0"; "10000.0"; "61000.0"; "+"; "6000.00"; "6M"; "142001.0"; "2000000.0"; "False"; "1";
+             "(1,1)(2,2)(3,3)(4,4)(5,5)(6,6)"]%string);
+      (Some ["1"; "7"; "1"; "92000.0"; "142000.0"; "72000.0"; "122000.0"; "+"; "6000.00"; "6M"; "142001.0"; "2000000.0"; "True"; "1";
+             "(7,7)(8,8)(9,9)(10,10)(11,11)(12,12)"]%string,
+       Some ["1"; "7"; "1"; "92000.0"; "142000.0"; "72000.0"; "122000.0"; "+"; "6000.00"; "6M"; "142001.0"; "2000000.0"; "True"; "1";
+             "(7,7)(8,8)(9,9)(10,10)(11,11)(12,12)"]%string) ].
+Proof. split; [discriminate|]. split; [reflexivity|]. split; [exact RunProofs4.ex_seeds_ok|]. split; [exact rr_refs_ok|].
+  split; [exact rr_q0s_ok|]. split; [exact rr_qid|]. vm_compute. repeat split; reflexivity. Qed.
+(* ... and in mode `all` (main: the joined record of 12 pairs; _1 and _2: its two parts) the three written texts are the spec_fields of
+   the input maps as well (for the joined record this is an observation on this run, not a theorem: F10) *)
+Example C02_run_records_all_mode :
+  map (fun w => (rest w, site_pairs (rsegs w))) (rr_rows All_ 110000) =
+    [(false, ModesExamples.ex_p16 ++ ModesExamples.ex_p712); (false, ModesExamples.ex_p16); (true, ModesExamples.ex_p712)] /\
+  map (rr_text 1) (rr_rows All_ 110000) = map (rr_spec 1) (rr_rows All_ 110000) /\
+  map (rr_text 1) (rr_rows All_ 110000) =
+    [ Some ["1"; "7"; "1"; "0.0"; "142000.0"; "10000.0"; "122000.0"; "+"; "12000.00"; "12M"; "142001.0"; "2000000.0"; "False"; "1";
+            "(1,1)(2,2)(3,3)(4,4)(5,5)(6,6)(7,7)(8,8)(9,9)(10,10)(11,11)(12,12)"]%string;
+      Some ["1"; "7"; "1"; "0.0"; "51000.0"; "10000.0"; "61000.0"; "+"; "6000.00"; "6M"; "142001.0"; "2000000.0"; "False"; "1";
+            "(1,1)(2,2)(3,3)(4,4)(5,5)(6,6)"]%string;
+      Some ["1"; "7"; "1"; "92000.0"; "142000.0"; "72000.0"; "122000.0"; "+"; "6000.00"; "6M"; "142001.0"; "2000000.0"; "True"; "1";
+            "(7,7)(8,8)(9,9)(10,10)(11,11)(12,12)"]%string ].
+Proof. vm_compute. repeat split; reflexivity. Qed.
+
+Print Assumptions C02_run_records.
+Print Assumptions C02_run_records_trimmed.
+Print Assumptions C02_run_record_text.
